@@ -14,8 +14,8 @@ structure Idle (s : St) : Prop where
   parked_lt : ∀ i ∈ s.parked, i < s.trk.length
   parked_nodup : s.parked.Nodup
 
-/-- All trackers belong to other calls than the current one. -/
-def AllStale (s : St) : Prop := ∀ i, (getTrk s i).callId ≠ s.callId
+/-- All parked batches belong to other calls than the current one. -/
+def AllStale (s : St) : Prop := ∀ i ∈ s.parked, (getTrk s i).callId ≠ s.callId
 
 /-- Only the backend's bookkeeping moved (some parked batches of other calls were completed). -/
 def StaleRel (s s' : St) : Prop :=
@@ -33,9 +33,9 @@ theorem StaleRel.trans {a b d : St} (h1 : StaleRel a b) (h2 : StaleRel b d) : St
   exact ⟨lg2, pk2, sc2, ib2, rfl, p2.trans p1, Nat.le_trans q2 q1⟩
 
 theorem StaleRel.allStale {s s' : St} (h : StaleRel s s') (hs : AllStale s) : AllStale s' := by
-  obtain ⟨lg, pk, sc, ib, e, _, _⟩ := h
+  obtain ⟨lg, pk, sc, ib, e, hsub, _⟩ := h
   subst e
-  exact hs
+  exact fun i hi => hs i (hsub.subset hi)
 
 theorem deliver_stale (c : Cfg) (k : Nat) {s : St} (hs : AllStale s) : StaleRel s (deliver c k s) := by
   unfold deliver
@@ -49,7 +49,7 @@ theorem deliver_stale (c : Cfg) (k : Nat) {s : St} (hs : AllStale s) : StaleRel 
     obtain ⟨s3, failed⟩ := res
     simp only at hex ⊢
     simp only [ev] at hex
-    rw [stale_callback_noop c _ i failed (by rw [hex]; exact hs i)]
+    rw [stale_callback_noop c _ i failed (by rw [hex]; exact hs i (List.mem_of_getElem? hk))]
     refine ⟨lg, s.parked.eraseIdx k, s.sched, false, by rw [hex], List.eraseIdx_sublist _ _, Nat.le_refl _⟩
 
 theorem deliverAll_stale (c : Cfg) : ∀ (l : List Nat) {s : St}, AllStale s → StaleRel s (deliverAll c s l) := by
@@ -79,6 +79,8 @@ theorem hook_nosleep_stale (c : Cfg) {s : St} (hs : AllStale s) : StaleRel s (ho
 /-- The state `callStart` hands to `_start`. -/
 structure Fresh (c : Cfg) (base : Nat) (spec : CallSpec) (s sF : St) : Prop where
   inv : Inv c s.trk.length { sF with iterating := false }
+  invB : InvB c s.trk.length { sF with iterating := false }
+  invU : InvU s.trk.length { sF with iterating := false }
   base : sF.base = base
   spec : sF.spec = spec
   failIds : sF.failIds = s.failIds
@@ -134,7 +136,7 @@ theorem callStart_fresh (c : Cfg) (fuel base : Nat) (spec : CallSpec) {s : St} (
     ∃ sF, callStart c fuel base spec s = (start c fuel sF, none) ∧ Fresh c base spec s sF := by
   rw [callStart_eq, if_neg (by simp [hi.running])]
   have hstale : AllStale (resetState s) := by
-    intro i
+    intro i _
     have := hi.callId_le i
     show (getTrk s i).callId ≠ s.callCtr + 1
     omega
@@ -149,8 +151,15 @@ theorem callStart_fresh (c : Cfg) (fuel base : Nat) (spec : CallSpec) {s : St} (
   by_cases hm : (c.pdMode == 1) = true
   · have hm' : c.pdMode = 1 := by simpa using hm
     simp only [hm, if_true]
-    refine ⟨⟨?_, ?_, ?_, ?_⟩, rfl, rfl, rfl, rfl, rfl, rfl, hpk, hsc, rfl, rfl, rfl, rfl, rfl,
+    have hUF : InvU s.trk.length { ({ s with log := "start_call" :: lg, sched := sc, parked := pk, inCb := ib, running := true, callCtr := s.callCtr + 1, callId := s.callCtr + 1, nDispBatches := 0, nDispTasks := 0, nCompleted := 0, nbConsumed := 0, exception := false, aborting := false, aborted := false, ready := [], calling := true, base := base, spec := spec, srcPos := 0, srcDead := false, origAlive := false, preLeft := none } : St) with iterating := false } := by
+      refine ⟨by simp [hi.jobs], by intro i h; simp [hi.jobs] at h, by simp [hi.jobsSet],
+        by intro i h; simp [hi.jobsSet] at h, by intro i h; simp [hi.jobsSet] at h, ?_⟩
+      intro i h0 h1; exact absurd h1 (by show ¬ i < s.trk.length; omega)
+    refine ⟨⟨?_, ?_, ?_, ?_⟩, ?_, hUF, rfl, rfl, rfl, rfl, rfl, rfl, hpk, hsc, rfl, rfl, rfl, rfl, rfl,
       ⟨rfl, rfl, hi.jobs, hi.jobsSet, rfl, rfl, rfl, rfl, rfl, rfl⟩, ⟨fun _ => ⟨rfl, rfl⟩, fun h => absurd hm' h⟩⟩
+    rotate_left 4
+    · refine ⟨fun i h0 h1 => absurd h1 (by show ¬ i < s.trk.length; omega), by intro b h; simp at h, by simp, ?_⟩
+      intro h; exact absurd hm' h
     · constructor
       · exact Nat.le_refl _
       · show 0 < s.callCtr + 1; omega
@@ -185,8 +194,15 @@ theorem callStart_fresh (c : Cfg) (fuel base : Nat) (spec : CallSpec) {s : St} (
     · intro _ h; simp at h
   · have hm' : c.pdMode ≠ 1 := by simpa using hm
     simp only [hm, Bool.false_eq_true, if_false]
-    refine ⟨⟨?_, ?_, ?_, ?_⟩, rfl, rfl, rfl, rfl, rfl, rfl, hpk, hsc, rfl, rfl, rfl, rfl, rfl,
+    have hUF : InvU s.trk.length { ({ s with log := "start_call" :: lg, sched := sc, parked := pk, inCb := ib, running := true, callCtr := s.callCtr + 1, callId := s.callCtr + 1, nDispBatches := 0, nDispTasks := 0, nCompleted := 0, nbConsumed := 0, exception := false, aborting := false, aborted := false, ready := [], calling := true, base := base, spec := spec, srcPos := 0, srcDead := false, origAlive := true, preLeft := some c.pd } : St) with iterating := false } := by
+      refine ⟨by simp [hi.jobs], by intro i h; simp [hi.jobs] at h, by simp [hi.jobsSet],
+        by intro i h; simp [hi.jobsSet] at h, by intro i h; simp [hi.jobsSet] at h, ?_⟩
+      intro i h0 h1; exact absurd h1 (by show ¬ i < s.trk.length; omega)
+    refine ⟨⟨?_, ?_, ?_, ?_⟩, ?_, hUF, rfl, rfl, rfl, rfl, rfl, rfl, hpk, hsc, rfl, rfl, rfl, rfl, rfl,
       ⟨rfl, rfl, hi.jobs, hi.jobsSet, rfl, rfl, rfl, rfl, rfl, rfl⟩, ⟨fun h => absurd h hm', fun _ => ⟨rfl, rfl⟩⟩⟩
+    rotate_left 4
+    · refine ⟨fun i h0 h1 => absurd h1 (by show ¬ i < s.trk.length; omega), by intro b h; simp at h, by simp, ?_⟩
+      intro _; exact ⟨c.pd, rfl, by simp⟩
     · constructor
       · exact Nat.le_refl _
       · show 0 < s.callCtr + 1; omega
